@@ -137,6 +137,18 @@ var exprWrappers = []wrapper{
 	// chains: the construct repeats without embedding (postfix / left-associative operators)
 	{Name: "dcolon-chain", K: exprK, Pre: "", Post: "::int"},
 	{Name: "subscript-chain", K: exprK, Pre: "", Post: "[1]", Leaf: "a"},
+	{Name: "slice-chain", K: exprK, Pre: "", Post: "[1:2]", Leaf: "a"},
+	{Name: "slice-open-start-chain", K: exprK, Pre: "", Post: "[:1]", Leaf: "a"},
+	{Name: "slice-open-end-chain", K: exprK, Pre: "", Post: "[1:]", Leaf: "a"},
+	{Name: "slice-open-both-chain", K: exprK, Pre: "", Post: "[:]", Leaf: "a"},
+	{Name: "subscript-slice-mixed-chain", K: exprK, Pre: "", Post: "[1][:1][1:2]", Leaf: "a"},
+	{Name: "subscript-dcolon-mixed-chain", K: exprK, Pre: "", Post: "[1]::int", Leaf: "a"},
+	{Name: "is-null-chain", K: exprK, Pre: "", Post: " IS NULL"},
+	{Name: "cmp-chain", K: exprK, Pre: "", Post: " = 1"},
+	{Name: "like-chain", K: exprK, Pre: "", Post: " LIKE 'a'"},
+	{Name: "sub-chain", K: exprK, Pre: "", Post: " - 1"},
+	{Name: "div-chain", K: exprK, Pre: "", Post: " / 1"},
+	{Name: "json-text-chain", K: exprK, Pre: "", Post: " ->> 'k'", Leaf: "a"},
 	{Name: "and-chain", K: exprK, Pre: "", Post: " AND a"},
 	{Name: "or-chain", K: exprK, Pre: "", Post: " OR a"},
 	{Name: "add-chain", K: exprK, Pre: "", Post: " + 1"},
